@@ -54,7 +54,7 @@ def impl_value(data, labels, K, biased=False):
 
 def run(ctx):
     rng = np.random.default_rng(ctx.seed)
-    ctx.proof_layer(allowed_axioms=core.R_AX, coq_deps=["Corr/RunAccounting"])
+    ctx.proof_layer(allowed_axioms=core.R_AX, coq_deps=["Corr/RunAccounting", "Proofs/GenEquivCH"], gen=["cluster_metrics"])
     core.note_drift(ctx, ANCHORS)
     cov = core.LineCoverage()
     lits, meta = [], []
